@@ -275,11 +275,60 @@ def shard_normpath(seed, idx, n):
     return res
 
 
+def mixed_scheme_case(rng, res):
+    """A path list that mixes plain paths with `dir:` artifacts in any position (first, in the middle, last, several):
+    every listed path is recorded - the union of what each entry alone records."""
+    import hashlib
+    import in_toto.settings as st
+    tree = {"README.txt": ("f", b"read me\n"),
+            "src": ("d", {"a.c": ("f", b"int a;\n"), "sub": ("d", {"b.c": ("f", b"int b;\n")})}),
+            "vendor": ("d", {"lib.a": ("f", b"lib\n"), "inc": ("d", {"h.h": ("f", b"h\n")})}),
+            "docs": ("d", {"index.md": ("f", b"# %d\n" % rng.randrange(99))}),
+            "third": ("d", {"x": ("f", b"x\n")}), "Makefile": ("f", b"all:\n")}
+    plain = rng.sample(["README.txt", "src", "docs", "Makefile"], rng.randrange(1, 5))
+    dirs = rng.sample(["vendor", "third"], rng.randrange(1, 3))
+    starts = list(plain)
+    for dname in dirs:
+        starts.insert(rng.randrange(0, len(starts) + 1), "dir:" + dname)
+    patterns = list(st.ARTIFACT_EXCLUDE_PATTERNS)
+    d = tempfile.mkdtemp(prefix="verif-c10m-")
+    try:
+        T.materialise(tree, d)
+        i = impl_record(d, None, starts, [], False, False, None, False)
+    finally:
+        shutil.rmtree(d, ignore_errors=True)
+    i_cmp = {k: v for k, v in i.items() if k != "cwd_restored"}
+    exp = {}
+    for e in starts:
+        if e.startswith("dir:"):
+            ref = T.reference_record(tree[e[4:]][1], ["."], patterns, False, False, [])
+            lines = sorted((p_.encode("utf8"), h_) for p_, h_ in ref[1].items())
+            exp[e] = hashlib.sha256(b"".join(h_.encode() + b"  " + p_ + b"\n" for p_, h_ in lines)).hexdigest()
+        else:
+            exp.update(T.reference_record(tree, [e], patterns, False, False, [])[1])
+    want = {"ok": sorted([k, v] for k, v in exp.items())}
+    cands = T.candidate_paths(tree, starts + ["."])
+    m = core.driver().call({"op": "record", "root": T.model_node(tree, tree), "artifacts": starts,
+                            "excl": T.exclusion_table(patterns, cands), "follow": False, "normalize": False, "lstrip": []})
+    if "ok" in m:
+        m = {"ok": sorted([k, v["digest"] if "digest" in v else hashlib.sha256(v["text"].encode("utf8")).hexdigest()] for k, v in m["ok"])}
+    case = {"op": "record_mixed_schemes", "starts": starts}
+    res.case(dict(case, n=len(i_cmp.get("ok") or [])), True, i_cmp == m, sample_cap=1)
+    res.count("mixed_schemes")
+    if i_cmp != m:
+        res.fail("disagree", case, {"op": "record", "impl": i_cmp, "model": m})
+    if i_cmp != want:
+        res.fail("oracle", case, {"why": "a path list mixing plain paths and dir: artifacts does not record the union of what each entry records",
+                                  "impl": i_cmp, "expected": want})
+
+
 def shard(seed, idx, n, tier):
     res = core.Result()
     rng = core.rng_for(seed, "c10", idx)
     for _ in range(n):
         one_case(rng, res)
+    for _ in range(3):
+        mixed_scheme_case(rng, res)
     return res
 
 
